@@ -301,7 +301,7 @@ def parse_g(s):
 
 SHAPES = [(), (), (), (2,), (2,), (3,), (2, 2), (1, 2), (1,)]
 REAL_NAMES = ["x", "y", "z", "u", "v"]
-BATCH_NAMES = ["i", "j", "k"]
+BATCH_NAMES = ["i", "j", "k", "l"]
 DY = [-2, -1.5, -1, -1, -0.5, 0, 0, 0.5, 1, 1, 1.5, 2]
 
 
@@ -314,7 +314,7 @@ def dom(shape):
     return Reals[shape] if shape else Real
 
 
-def gen_signature(rng, max_dim=8):
+def gen_signature(rng, max_dim=8, nb_choices=(0, 0, 0, 1, 1, 1, 2, 2, 3)):
     nreal = rng.choice([1, 2, 2, 3])
     names = rng.sample(REAL_NAMES, nreal)
     reals = []
@@ -323,8 +323,8 @@ def gen_signature(rng, max_dim=8):
     while sum(numel(s) for _, s in reals) > max_dim:
         i = max(range(len(reals)), key=lambda i: numel(reals[i][1]))
         reals[i] = (reals[i][0], ())
-    nb = rng.choice([0, 0, 1, 1, 2])
-    batch = [(k, rng.choice([1, 2, 2, 3])) for k in rng.sample(BATCH_NAMES, nb)]
+    nb = rng.choice(list(nb_choices))
+    batch = [(k, rng.choice([1, 2, 2, 3] if nb < 3 else [1, 2, 2])) for k in rng.sample(BATCH_NAMES, nb)]
     order = [("r", k, s) for k, s in reals] + [("b", k, n) for k, n in batch]
     rng.shuffle(order)     # interleaved integer / real input order
     return order
@@ -352,6 +352,8 @@ def gen_sqrt_data(rng, order, rank=None):
 def make_gaussian(rng, order, rank=None):
     """-> (funsor, Fn spec, exact flag, description)"""
     w, P, rank = gen_sqrt_data(rng, order, rank)
+    if rng.random() < 0.08:          # integer-dtype parameters are legitimate real data
+        w, P = np.round(w).astype(np.int64), np.round(P).astype(np.int64)
     inputs = inputs_of(order)
     g = Gaussian(w, P, inputs)
     bnames = [k for kind, k, _ in order if kind == "b"]
@@ -360,8 +362,8 @@ def make_gaussian(rng, order, rank=None):
 
     def at(p):
         idx = tuple(p[k] for k in bnames)
-        wf = [F(v) for v in w[idx]]
-        Pf = [[F(v) for v in row] for row in P[idx]]
+        wf = [fr(v) for v in w[idx]]
+        Pf = [[fr(v) for v in row] for row in P[idx]]
         return lambda x: sqrt_eval(layout, wf, Pf, F(0), x)
     spec = Fn({k: s for kind, k, s in order if kind == "b"},
               OrderedDict((k, s) for kind, k, s in order if kind == "r"), at)
@@ -408,6 +410,9 @@ def make_from_params(rng, order):
     locv = dy_array(rng, bshape + ((rank,) if loc == "white_vec" else (dim,)))
     kw[loc] = locv
     kw2 = dict(kw)
+    for key in list(kw2):            # integer-dtype constructor parameters when the values are integral
+        if np.all(kw2[key] == np.round(kw2[key])) and rng.random() < 0.4:
+            kw2[key] = kw2[key].astype(np.int64)
     if loc == "white_vec":
         g = Gaussian(kw2.pop("white_vec"), kw2.pop("prec_sqrt"), inputs_of(order))
     else:
@@ -442,7 +447,8 @@ def make_from_params(rng, order):
               OrderedDict((k, s) for kind, k, s in order if kind == "r"), at)
     exact = (loc in ("mean", "white_vec") and scale == "prec_sqrt" and not rank > 2 * dim)
     return g, spec, exact, dict(op="construct", loc=loc, scale=scale, order=[list(map(str, o)) for o in order],
-                                params={k: v.tolist() for k, v in kw.items()})
+                                params={k: v.tolist() for k, v in kw.items()},
+                                dtypes={k: str(v.dtype) for k, v in kw2.items()})
 
 
 # ----------------------------------------------------------------------------------------------
@@ -521,12 +527,38 @@ def op_add_tensor(rng, cur, obs, spec):
                 exact=True, rank=obs.rank, desc=dict(op="add_tensor", inputs=pool, data=data.tolist(), swap=swap))
 
 
+VALUE_DTYPES = ["float64"] * 6 + ["int64", "int64", "int32", "bool", "float32", "raw-int", "raw-float"]
+
+
+def cast_value(rng, shape, style=None):
+    """A real-valued array in one of the dtypes a caller may legitimately pass for a Real input
+    -> (array as passed to funsor, float64 array of the same mathematical value, style)"""
+    style = style or rng.choice(VALUE_DTYPES)
+    if style in ("int64", "int32", "raw-int"):
+        val = dy_array(rng, shape, pool=[-2, -1, 0, 1, 1, 2, 3])
+        arr = val.astype(np.int32 if style == "int32" else np.int64)
+    elif style == "bool":
+        val = dy_array(rng, shape, pool=[0, 1])
+        arr = val.astype(bool)
+    elif style == "float32":
+        val = dy_array(rng, shape)
+        arr = val.astype(np.float32)
+    else:
+        val = dy_array(rng, shape)
+        arr = val
+    return arr, val, style
+
+
 def gen_value(rng, shape, batch_pool):
-    """A Tensor value for a real input, possibly depending on batch inputs -> (Tensor, p -> ndarray, desc)."""
+    """A value for a real input, possibly depending on batch inputs, in mixed dtypes (float64 / int64 / int32 / bool /
+    float32 data inside a Tensor of dtype 'real', or a raw numpy array) -> (value, p -> float64 ndarray, desc)."""
     deps = [(k, n) for k, n in batch_pool if rng.random() < 0.35][:2]
-    data = dy_array(rng, tuple(n for _, n in deps) + tuple(shape))
-    t = Tensor(data, OrderedDict((k, Bint[n]) for k, n in deps))
-    return t, (lambda p: data[tuple(p[k] for k, _ in deps)]), dict(deps=deps, data=data.tolist())
+    arr, data, style = cast_value(rng, tuple(n for _, n in deps) + tuple(shape))
+    if style.startswith("raw") and not deps:
+        t = arr                       # a bare numpy array: Funsor.__call__ / Subs convert it with to_funsor
+    else:
+        t = Tensor(arr, OrderedDict((k, Bint[n]) for k, n in deps))
+    return t, (lambda p: data[tuple(p[k] for k, _ in deps)]), dict(deps=deps, data=data.tolist(), dtype=style)
 
 
 def op_subs_real(rng, cur, obs, spec, chosen=None, all_variants=False):
@@ -559,9 +591,11 @@ def op_subs_real(rng, cur, obs, spec, chosen=None, all_variants=False):
         t, get, d = gen_value(rng, spec.reals[k], pool)
         if k == lazy_k:
             # value of the lazily substituted input is the square of a dyadic tensor r (exact)
-            root = t
+            if not isinstance(t, Tensor):
+                t = Tensor(np.asarray(t, dtype=np.float64))
+            root = Tensor(np.asarray(t.data, dtype=np.float64), t.inputs)
             d = dict(d, squared=True)
-            t = Tensor(np.asarray(t.data) ** 2, t.inputs)
+            t = Tensor(np.asarray(t.data, dtype=np.float64) ** 2, t.inputs)
             get = (lambda p, g_=get: np.asarray(g_(p)) ** 2)
         elif spec.reals[k] == () and not d["deps"] and rng.random() < 0.1:
             t = Number(float(d["data"]))
@@ -964,11 +998,12 @@ def op_cat(rng, cur, obs, spec, partname=None):
                 desc=dict(op="cat", name=name, part_name=i, pos=pos, parts=[s[4] for s in parts]))
 
 
-def op_plate(rng, cur, obs, spec, focus=False):
+def op_plate(rng, cur, obs, spec, focus=False, red=None):
     if obs.g is None or not obs.batch:
         return None
     names = list(obs.batch)
-    red = rng.sample(names, rng.choice([1, 1, 2]) if len(names) > 1 else 1)
+    if red is None:
+        red = rng.sample(names, rng.randint(1, len(names)))
     absent = any(not set(red) <= set(t.inputs) for t in obs.ts)
     if focus and not absent:
         return None
@@ -1096,12 +1131,16 @@ def check_step(env, rng, res, step, exact, counts):
             reqs.append(rq)
             req_meta.append((p, t_exp, d_spec, (w, P, t)))
     # ---- evaluation at a random dyadic point ----------------------------------------------
-    x = gen_point(rng, spec.reals)
-    xf = {k: [F(v) for v in np.asarray(a).reshape(-1)] for k, a in x.items()}
+    xpass, x = {}, {}
+    for k, sh in spec.reals.items():          # mixed dtypes: the point is the float64-promoted value
+        xpass[k], x[k], style = cast_value(rng, sh)
+        if style != "float64":
+            counts("point-eval:dtype:" + style)
+    xf = {k: [F(float(v)) for v in np.asarray(a).reshape(-1)] for k, a in x.items()}
     evals = None
     if x:
         try:
-            val = res(**{k: Tensor(a) for k, a in x.items()})
+            val = res(**{k: (a if rng.random() < 0.2 else Tensor(a)) for k, a in xpass.items()})
             tab = value_table(val, spec.batch)
             evals = [(p, tab(p)) for p in pts]
         except Declined:
@@ -1577,7 +1616,7 @@ def correspond(ctx, use_driver=True, volume=None):
                 "chained through a lazy first step.  Non-trivial = at least one operation checked after construction; "
                 "distinct by seed and operation sequence.")
     env = Env(ctx, use_driver)
-    n = volume or (700 if ctx.tier == "quick" else 12000)
+    n = volume or (700 if ctx.tier == "quick" else 10000)
     if env.use_driver:
         offsets_stream(ctx, 60 if ctx.tier == "quick" else 600)
     for _ in range(n):
